@@ -588,7 +588,13 @@ func evalP12(args []string) string {
 		if _, _, err := pkcs12.DecodeAll(pfx, string(wrong)); err == nil {
 			return "ORACLE-FAIL:wrong-password-accepted"
 		}
+		// the PEM-converting entry point reads the same container: the wrong password is an error there too
+		if blocks, err := pkcs12.ToPEM(pfx, string(wrong)); err == nil {
+			return fmt.Sprintf("ORACLE-FAIL:ToPEM-wrong-password-no-error:%d-blocks", len(blocks))
+		}
 	}
+	// (with the right password ToPEM reports "x509: unknown elliptic curve" for an SM2 key: it converts keys with the
+	// standard library's marshaller - an error, not wrong data; DecodeAll is the entry point that returns SM2 keys)
 	step := len(pfx)/120 + 1
 	for pos := 0; pos < len(pfx); pos += step {
 		for _, m := range []byte{1, 0x80} {
